@@ -659,6 +659,31 @@ class Engine(object):
     def finite(self, a):
         return not is_poison(a) and a is not None
 
+    def eq_abs(self, a, b, atoms):
+        """a == b with the given symbolic values (e.g. the entries of a
+        profile) replaced by fresh variables on both sides: an aggregation
+        identity such as `distance * T == sum(values * lengths)` does not
+        depend on what the values are, and without their (rational) definitions
+        it is a small polynomial identity.  Sound: the abstraction only forgets
+        facts."""
+        if is_poison(a) or is_poison(b):
+            return False
+        if not (isinstance(a, Sym) or isinstance(b, Sym)):
+            return a == b
+        eqn = tz(a) == tz(b)
+        subs = []
+        seen = set()
+        for i, t in enumerate(atoms):
+            if isinstance(t, Sym) and t.z is not None and not z3.is_rational_value(t.z) \
+                    and not z3.is_const(t.z) and t.z.get_id() not in seen:
+                seen.add(t.z.get_id())
+                subs.append((t.z, z3.Real("abs!%d" % i)))
+        # larger terms first so that a value is not split by the replacement of a sub-term
+        subs.sort(key=lambda p: -len(p[0].sexpr()))
+        for old, new in subs:
+            eqn = z3.substitute(eqn, (old, new))
+        return SymBool(eqn)
+
     # ---- known findings ----------------------------------------------
     def _regions_for(self, tag):
         """[(id, z3 bool)] of the known-finding regions that apply to an
@@ -821,6 +846,12 @@ class Engine(object):
                 self._record_cex(ob.tag, nm if nm is not None else m)
             else:
                 self.unknown.append(dict(tag=ob.tag, trace=len(self.trace)))
+                dd = _os.environ.get("VERIF_DUMP_UNKNOWN")
+                if dd:
+                    sd = self._fresh_solver()
+                    sd.add(n)
+                    with open(_os.path.join(dd, "unk_%d_%d.smt2" % (_os.getpid(), len(self.unknown))), "w") as fh:
+                        fh.write(sd.to_smt2())
         self.tobl += time.time() - t0
 
     def _split_ite(self, neg, lits, deadline):
@@ -952,6 +983,11 @@ class Engine(object):
         pairwise distinct as far as the path allows) so that float replays do
         not degenerate to all-zero inputs"""
         ints = getattr(self, "_int_inputs", set())
+        if self.side:
+            # the path depends on an algebraic quantity (sqrt): no lattice model
+            # exists in general and the mixed integer/non-linear search is slow;
+            # such paths are not float-validated
+            return None
         for denom, lim, to in ((16, 1024, 2000), (1024, 1 << 20, 3000)):
             for level in (2, 1, 0):
                 s = self._fresh_solver(to)
@@ -1098,6 +1134,9 @@ class ConcreteEngine(object):
         return abs(a - b) <= self.tol * (1.0 + max(abs(a), abs(b)))
 
     def eq(self, a, b):
+        return self._close(a, b)
+
+    def eq_abs(self, a, b, atoms):
         return self._close(a, b)
 
     def le(self, a, b):
